@@ -667,7 +667,16 @@ func (u *Unit) reifyFn(v Val) *Term {
 		}
 		if fn != nil {
 			fs := u.ctx.Func("fnstatic", []Sort{SFn}, SInt)
-			u.ctx.Axiom(Eq(App(SInt, fs, t), IntLit(int64(u.prog.fnID(fn)))))
+			id := u.prog.fnID(fn)
+			if strings.HasPrefix(fn.Synthetic, "bound method wrapper for ") {
+				// x.M as a value: identified by the method it is bound to
+				if m, ok := fn.Object().(*types.Func); ok {
+					if target := u.prog.ssaProg.FuncValue(m); target != nil {
+						id = u.prog.fnIDKey(funcKey(target) + "$bound")
+					}
+				}
+			}
+			u.ctx.Axiom(Eq(App(SInt, fs, t), IntLit(int64(id))))
 		}
 	}
 	return t
